@@ -123,7 +123,11 @@ def gen_case(rng, tier):
             ns["http://taken%d.org/" % i] = p
         all_taken = True
     case = {"channel": channel, "graph": gen.L(triples), "target": target, "options": options, "ns": ns,
-            "exempt_random_prefix": all_taken}
+            "exempt_random_prefix": all_taken,
+            # shapes that end up without constraints are removed (unless remove_empty_shapes is off) - at 0 rarely, at 0.9 often
+            "threshold": rng.choice([0, 0, 0.5, 0.9, 1])}
+    if channel == "turtle_iter" and rng.random() < 0.5 and not any(t[0] == "i" and not t[1].startswith("http") for tr in triples for t in tr):
+        case["ttl_base"] = True        # @base and relative IRIs in the streaming dialect
     if clash:
         case["clash_labels"] = True
     if endpoint and rng.random() < 0.25:
@@ -144,6 +148,8 @@ def materialise(case):
     if ch == "tsv":
         return gen.to_tsv(triples)
     if ch == "turtle_iter":
+        if case.get("ttl_base"):
+            return gen.to_turtle(triples, group=False, dialect="iter", base=gen.EX)
         return gen.to_nt(triples)      # N-Triples is a Turtle subset the streaming reader accepts
     if ch == "turtle":
         return gen.to_turtle(triples, clash_labels=bool(case.get("clash_labels")))
@@ -260,7 +266,7 @@ def child_main():
                 with sim:
                     try:
                         sh = Shaper(**_case_kwargs(case, sim))
-                        text = sh.shex_graph(string_output=True, output_format=fmt)
+                        text = sh.shex_graph(string_output=True, output_format=fmt, acceptance_threshold=case.get("threshold", 0))
                         if fmt == SHEXC:
                             groups = profile_groups(sh)
                             ties = tied_groups(groups)
@@ -269,7 +275,7 @@ def child_main():
                             # the same document through the file channel, in this very interpreter
                             if not ascii_process:
                                 fp = sim.path("child_out.shex")
-                                sh.shex_graph(output_file=fp)
+                                sh.shex_graph(output_file=fp, acceptance_threshold=case.get("threshold", 0))
                                 with open(fp, encoding="utf-8") as f:
                                     res["shex"]["file_equals_string"] = (f.read() == text)
                         else:
@@ -280,7 +286,7 @@ def child_main():
                             # the SHACL file channel (rdflib writes it as UTF-8 whatever the locale): same graph as the string
                             fp = sim.path("child_out.ttl")
                             try:
-                                sh.shex_graph(output_file=fp, output_format=fmt)
+                                sh.shex_graph(output_file=fp, output_format=fmt, acceptance_threshold=case.get("threshold", 0))
                                 with open(fp, encoding="utf-8") as f:
                                     fd = shacl_digest(f.read())
                             except Exception as e:
